@@ -33,6 +33,9 @@ SPELL = (
     ('HM+0100', 'M', '{Y}-{m}-{d} {H}:{M}+0100', 60),
 )
 OFFSETS = (0, 0.25, 0.5, 1, 59, 60, 365, 366, 1461, 36524, 36525, 73049)
+# whole numbers only (integer-typed time variables); times before the reference instant included
+IOFFSETS = (-366, -1, 0, 1, 59, 60, 365, 366, 1461, 36525)
+TDTYPES = ('d', 'i', 'f', 'q')
 YEARS = (1970, 1999, 2000, 2019, 2020, 2069, 2100)
 HHMMSS = (0, 1, 59, 3000, 120000, 235959)
 TSTEPS = (10000, 3000, 1, 240000, 1000000, 1680000)
@@ -75,7 +78,8 @@ class Prop(core.Prop):
     def bounds(self, tier):
         return {'units': UNITS, 'calendars': [str(c) for c in CALS], 'spellings': [s[0] for s in SPELL],
                 'reference_instants': len(REFS), 'offsets': OFFSETS, 'years': YEARS, 'hhmmss': HHMMSS,
-                'tsteps': TSTEPS, 'tier_note': 'quick = half of the reference instants and years'}
+                'tsteps': TSTEPS, 'tier_note': 'quick = half of the reference instants and years',
+                'time_variable_dtypes': ['f8', 'i4', 'f4', 'i8'], 'integer_offsets': IOFFSETS}
 
     def groups(self, tier):
         refs = REFS if tier == 'thorough' else REFS[:4]
@@ -96,6 +100,10 @@ class Prop(core.Prop):
             for cal in CALS:
                 for mode in ('vector', 'single', 'bounds-var', 'bounds-approx'):
                     yield dict(group, cal=cal, mode=mode)
+                # the same decoding for time variables stored as 32-bit integers, 32-bit floats, 64-bit integers
+                if group['spell'] in (0, 3, 11) or self.tier == 'thorough':
+                    for dt in TDTYPES[1:]:
+                        yield dict(group, cal=cal, mode='vector', tdtype=dt)
         elif group['part'] == 'tflag':
             yield dict(group, branch='TFLAG')
             yield dict(group, branch='attrs')
@@ -120,10 +128,13 @@ class Prop(core.Prop):
                              H='%02d' % ref[3], M='%02d' % ref[4], S='%02d' % ref[5])
         unit, cal, mode = case['unit'], case['cal'], case['mode']
         units = '%s since %s' % (unit, refstr)
+        tdt = case.get('tdtype', 'd')
         vals = np.array(OFFSETS if mode != 'single' else OFFSETS[4:5], dtype='d')
+        if tdt != 'd':
+            vals = np.array(IOFFSETS, dtype='d')
         f = P.PseudoNetCDFFile()
         f.createDimension('time', vals.size)
-        tv = f.createVariable('time', 'd', ('time',))
+        tv = f.createVariable('time', tdt, ('time',))
         tv[:] = vals
         tv.units = units
         if cal is not None:
@@ -148,12 +159,12 @@ class Prop(core.Prop):
         enc = edges if edges is not None else vals
         cc = calclass(cal)
         sig = ('getTimes', 'cf', cc)
-        scope = dict(part='cf', unit=unit, calclass=cc, spelling=name, mode=mode,
+        scope = dict(part='cf', unit=unit, calclass=cc, spelling=name, mode=mode, tdtype=tdt,
                      ref_is_jan1=bool(ref[1] == 1 and ref[2] == 1),
                      ref_has_time=bool(ref[3] or ref[4] or ref[5]), tzoff=off)
         refx = ref + (0, off)
         vs = []
-        st = [h64('cf', units, cal, mode)]
+        st = [h64('cf', units, cal, mode, tdt)]
         try:
             got = f.getTimes(bounds=mode.startswith('bounds'))
         except Exception as e:
@@ -208,7 +219,7 @@ class Prop(core.Prop):
             except Exception as e:
                 vs.append(viol('inverse-raises', ('date2num', 'cf', cc), '%s: %r' % (type(e).__name__, e),
                                **scope))
-        return result('viol' if vs else 'ok-cf', vs, st, 1, h64('cf', units, cal, mode),
+        return result('viol' if vs else 'ok-cf', vs, st, 1, h64('cf', units, cal, mode, tdt),
                       h64(repr(gott)) if not vs else None)
 
     def run_tflag(self, case):
